@@ -76,6 +76,17 @@ func runC07(c *core.Ctx) {
 			}
 			c.Call("Destination accessors (buffer reused)", b, func() { checkDest("destination.ReadDestination(buffer reused)", &d3, b, sh) })
 		}
+		// parse from a buffer that continues after the identity (as inside a LeaseSet or a stream):
+		// hash, address and bytes are those of the identity alone
+		for _, tail := range [][]byte{r.Bytes(1 + r.Pick(40)), b, {0}} {
+			long := append(append([]byte{}, b...), tail...)
+			if d4, rem, err := destination.ReadDestination(long); err == nil && len(rem) == len(tail) {
+				c.Call("Destination accessors (followed by more data)", long, func() { checkDest("destination.ReadDestination(followed by more data)", &d4, b, sh) })
+				if !d.Equals(&d4) || !d4.Equals(&d) {
+					c.Violate("destination.Destination.Equals", "equal-serialisations-compare-unequal", sh, long, "the same identity read alone and read from a longer buffer compare unequal")
+				}
+			}
+		}
 		if cd, ok, err := lib.BuildDestination(m); ok && err == nil {
 			c.Call("Destination accessors (constructed)", b, func() { checkDest("destination.NewDestination", cd, b, sh) })
 			if !d.Equals(cd) || !cd.Equals(&d) {
@@ -162,6 +173,25 @@ func runC07(c *core.Ctx) {
 		ri2, _, _ := router_identity.ReadRouterIdentity(append([]byte{}, b...))
 		if !ri.Equal(ri2) {
 			c.Violate("router_identity.RouterIdentity.Equal", "equal-serialisations-compare-unequal", sh, b, "two parses of the same bytes compare unequal")
+		}
+		// read from a buffer that continues after the identity (as inside a RouterInfo)
+		for _, tail := range [][]byte{r.Bytes(1 + r.Pick(40)), b, {0}} {
+			long := append(append([]byte{}, b...), tail...)
+			ri4, rem, err := router_identity.ReadRouterIdentity(long)
+			if err != nil || ri4 == nil || len(rem) != len(tail) {
+				continue
+			}
+			want := sha256.Sum256(b)
+			if s4, err := ri4.Bytes(); err != nil || !bytes.Equal(s4, b) {
+				c.Violate("router_identity.RouterIdentity.Bytes", "bytes", sh, long, "an identity read from a longer buffer does not serialise to its own bytes")
+			}
+			if !ri.Equal(ri4) || !ri4.Equal(ri) {
+				c.Violate("router_identity.RouterIdentity.Equal", "equal-serialisations-compare-unequal", sh, long, "the same identity read alone and read from a longer buffer compare unequal")
+			}
+			ad := ri4.AsDestination()
+			if h, err := ad.Hash(); err != nil || h != want {
+				c.Violate("router_identity.RouterIdentity.AsDestination", "hash-not-sha256-of-bytes", sh, long, fmt.Sprintf("identity read from a longer buffer: Hash()=%x err=%v, SHA-256(identity bytes)=%x", h, err, want))
+			}
 		}
 		for form := 0; form < 3; form++ {
 			if kac, ok, err := lib.BuildKACPad(m, form); ok && err == nil {
